@@ -121,7 +121,7 @@ TzData synthx_zone(uint64_t seed) {
 }
 
 // ------------------------------------------------------------------ storage faults
-std::string apply_faults(const std::string& base, const std::vector<ByteFault>& faults, int* noops) {
+std::string apply_faults(const std::string& base, const std::vector<ByteFault>& faults, int* noops, std::vector<bool>* applied) {
   std::string b = base;
   for (const ByteFault& f : faults) {
     bool done = false;
@@ -160,6 +160,7 @@ std::string apply_faults(const std::string& base, const std::vector<ByteFault>& 
       }
     }
     if (!done && noops) ++*noops;
+    if (applied) applied->push_back(done);
   }
   if (b.size() > 65536) b.resize(65536);
   return b;
@@ -409,7 +410,8 @@ Outcome exec_c12(const C12Case& c, bool keep_log, Stats* stats) {
   const std::string salt = sb;
   int noops = 0;
   std::string basebytes = base_bytes(c.base);
-  const std::string bytes = apply_faults(basebytes, c.faults, &noops);
+  std::vector<bool> applied;
+  const std::string bytes = apply_faults(basebytes, c.faults, &noops, &applied);
   std::map<std::string, CatEntry> cat;
   const std::string n1 = "sim/" + salt + "/Z", n2 = "sim/" + salt + "/Z2", nb = "sim/" + salt + "/bystander";
   for (const std::string& n : {n1, n2}) {
@@ -579,7 +581,7 @@ Outcome exec_c12(const C12Case& c, bool keep_log, Stats* stats) {
     else if (att[0].ok) { stats->add(changed || stream_fired ? "probe.loaded_after_fault" : "probe.loaded_pristine"); stats->add("panel_queries", att[0].nqueries + att[1].nqueries); }
     else stats->add("probe.rejected");
     if (noops) stats->add("fault_noop", noops);
-    for (const ByteFault& f : c.faults) stats->add("fault." + f.k);
+    for (size_t i = 0; i < c.faults.size(); ++i) stats->add((i < applied.size() && applied[i] ? "fault." : "fault_configured_but_noop.") + c.faults[i].k);  // fired = actually changed the image
     if (c.faults.size() == 1 && c.eio_at < 0 && c.short_at < 0 && c.skip_mode == 0 && !att[0].skipped)
       stats->add("single." + c.faults[0].k + (att[0].ok ? ".loaded" : ".rejected"));
     if (c.faults.empty() && !att[0].skipped) stats->add("single.none." + c.base.substr(0, c.base.find(':')) + (att[0].ok ? ".loaded" : ".rejected"));
